@@ -1,15 +1,28 @@
 import os
 import warnings
 
-from anytree import AnyNode
+from anytree import AnyNode, LightNodeMixin
 from anytree.exporter import DotExporter, MermaidExporter, UniqueDotExporter
 from implutil import snapshot
+
+
+class SlotNode(LightNodeMixin):
+    """the documented all-__slots__ pattern: no instance dictionary, not weakly referenceable"""
+    __slots__ = ("lbl", "name")
+
+    def __init__(self, parent=None, lbl=None, name=None):
+        self.lbl = lbl
+        self.name = name
+        self.parent = parent
+
+
+BASECLS = [AnyNode]
 
 
 def build_named(t, names, parent=None, nodes=None):
     lbl, cs = t
     import implutil
-    n = implutil.adv(AnyNode)(parent=parent, lbl=lbl, name=names[str(lbl)])
+    n = implutil.adv(BASECLS[0])(parent=parent, lbl=lbl, name=names[str(lbl)])
     nodes[lbl] = n
     for c in cs:
         build_named(c, names, n, nodes)
@@ -18,9 +31,10 @@ def build_named(t, names, parent=None, nodes=None):
 
 def run_case(c):
     nodes = {}
+    BASECLS[0] = SlotNode if c.get("slots") else AnyNode
     if c.get("embed"):
         import implutil
-        A = implutil.adv(AnyNode)
+        A = implutil.adv(BASECLS[0])
         top = A(lbl=1000, name="top")
         A(parent=top, lbl=1001, name="s")
         root = build_named(c["tree"], c["names"], parent=A(parent=top, lbl=1002, name="mid"), nodes=nodes)
@@ -97,9 +111,12 @@ def run_case(c):
         return {"crash": "interleaved iterations of one exporter differ"}
     import implutil
     c["names"].setdefault("2000", "zz")
-    extra = implutil.adv(AnyNode)(lbl=2000, name="zz")
+    extra = implutil.adv(BASECLS[0])(lbl=2000, name="zz")
     root.children = (extra,) + tuple(root.children)
     l4 = list(ex)
+    grows = (c["filt"] is None and (c["ml"] is None or c["ml"] >= 2) and c["tree"][0] not in (c["stop"] or []))
+    if grows and l4 == l1:
+        return {"crash": "the tree grew between two iterations of one exporter, the second iteration shows the old tree"}
     missing = [x for x in l1 if x not in l4]
     if missing:
         return {"crash": "after the tree grew, a line of the first iteration changed: %r" % (missing[0],)}
